@@ -1109,6 +1109,29 @@ def oracle(ctx, scale=1):
                                  "not the draw times 2 with spectral radius 0.5 (radius %.4f)" % (how, rb), scb))
         except Exception:  # noqa: BLE001 -- refused: the conforming answer
             pass
+    # a spectral radius requested from a STRUCTURED initialiser on a matrix large enough for ARPACK (all eigenvalues of a ring have the same modulus:
+    # ARPACK does not converge): the call returns, the result is a positive multiple of the unscaled matrix with the requested radius
+    import signal
+
+    def _alarm(*a):
+        raise TimeoutError("no answer within 30 s")
+    scr = {"kind": "oracle-ring-sr", "init": "ring", "shape": [50, 50], "sr": 0.875}
+    old_h = signal.signal(signal.SIGALRM, _alarm)
+    signal.alarm(30)
+    try:
+        Wr = m.ring(50, 50, sr=0.875)
+        W0 = dense(m.ring(50, 50)).astype(float)
+        rr = float(max(abs(np.linalg.eigvals(dense(Wr).astype(float)))))
+        if abs(rr - 0.875) > 1e-6 or not np.allclose(dense(Wr), 0.875 * W0, atol=1e-9):
+            out.append(_viol("sr:radius-mismatch:ring", "ring(50, 50, sr=0.875) has spectral radius %r / is not 0.875 times the unscaled ring" % rr, scr, 0.875, rr))
+    except TimeoutError as ex:
+        out.append(_viol("sr:arpack-no-convergence:endless-redraw", "ring(50, 50, sr=0.875) does not return (%s): ARPACK does not converge on a matrix whose eigenvalues all have "
+                         "the same modulus, and the retry loop redraws with seed + 1 an initialiser that ignores the seed" % ex, scr))
+    except Exception as ex:  # noqa: BLE001
+        out.append(_viol("exception:ring:sr", "ring(50, 50, sr=0.875) raises %r" % (ex,), scr))
+    finally:
+        signal.alarm(0)
+        signal.signal(signal.SIGALRM, old_h)
     for nm in INITS:
         if getattr(m, nm)._kwargs != {}:
             out.append(_viol("purity:module-initializer-mutated", "mat_gen.%s._kwargs = %r at the end of the run" % (nm, getattr(m, nm)._kwargs),
